@@ -512,8 +512,8 @@ def reduce_sum(it, a, axis):
     return r
 
 
-def reduce_max(it, a):
-    """np.max(a) over all elements."""
+def reduce_max(it, a, initial=None):
+    """np.max(a[, initial=v]) over all elements: with `initial` the maximum of v and the elements (an empty array is allowed)."""
     if not isinstance(a, NDArray):
         a = from_nested(it, a)
     if a.dtype != 'float':
@@ -530,14 +530,20 @@ def reduce_max(it, a):
         allq = lambda body: QA(n, lambda i: QA(d, lambda k: body(f(i, k))))
         exq = lambda body: QE(n, lambda i: QE(d, lambda k: body(f(i, k))))
         nonempty = z3.And(zi(n) > 0, zi(d) > 0)
-    if not it.truth(nonempty):
+    if initial is None and not it.truth(nonempty):
         raise PyRaise(it.make_exc('ValueError', ['zero-size array to reduction operation maximum which has no identity']))
     if it.pure:
         raise Unsupported('np.max in pure mode')
     mx = run.fresh('npmax', xreal.XReal)
     anynan = exq(lambda x: xreal.is_nan(x))
-    fact(run, z3.Implies(anynan, xreal.is_nan(mx)))
-    fact(run, z3.Implies(z3.Not(anynan), z3.And(allq(lambda x: xreal.le(x, mx)), exq(lambda x: x == mx))))
+    if initial is None:
+        fact(run, z3.Implies(anynan, xreal.is_nan(mx)))
+        fact(run, z3.Implies(z3.Not(anynan), z3.And(allq(lambda x: xreal.le(x, mx)), exq(lambda x: x == mx))))
+    else:
+        iv = elem_of(initial, 'float')
+        anynan = z3.Or(anynan, xreal.is_nan(iv))
+        fact(run, z3.Implies(anynan, xreal.is_nan(mx)))
+        fact(run, z3.Implies(z3.Not(anynan), z3.And(xreal.le(iv, mx), allq(lambda x: xreal.le(x, mx)), z3.Or(mx == iv, exq(lambda x: x == mx)))))
     return mx
 
 
@@ -568,6 +574,18 @@ def mask_info(it, m):
     if hit is not None and hit[0] is m.fn:
         return hit[1]
     n, f = m.shape[0], m.fn
+    if conc(n) is None:
+        jp = z3.Int('j!probe')
+        tp = f(jp)
+        if z3.is_expr(tp) and E._has_quantifier(tp):
+            # a mask whose elements are quantified formulas: the enumeration facts mention a named copy F (F[j] == m[j],
+            # instantiated on demand), so that they have triggers
+            F = fresh_fn(run, 'maskbit', 1, z3.BoolSort())
+            f0 = f
+            ax = z3.ForAll([jp], F(jp) == f0(jp), patterns=[F(jp)])
+            run.axiom(ax)
+            f = lambda j: F(j)
+            run.__dict__.setdefault('np_named_masks', {})[id(m.fn)] = (m.fn, F)
     cnt = run.fresh('cnt', z3.IntSort())
     sel, rnk = fresh_fn(run, 'sel', 1, z3.IntSort()), fresh_fn(run, 'rnk', 1, z3.IntSort())
     fact(run, z3.And(cnt >= 0, cnt <= zi(n)))
@@ -852,7 +870,7 @@ def _np_sum(it, args, kw):
 def _np_max(it, args, kw):
     if kw.get('axis', args[1] if len(args) > 1 else None) is not None:
         raise Unsupported('np.max with an axis')
-    return reduce_max(it, args[0])
+    return reduce_max(it, args[0], kw.get('initial'))
 
 
 def _map1(fn_scalar, out_dtype):
@@ -1455,7 +1473,10 @@ def _subscript_list_by_mask(it, base, idx):
         run = it.run
         arr = run.fresh('picked', base.arr.sort())
         src_arr = base.arr
-        fact(run, QA(cnt, lambda t: arr[t] == src_arr[sel(t)]))
+        if conc(base.n) is not None:
+            fact(run, QA(base.n, lambda t: z3.Implies(t < cnt, arr[t] == src_arr[sel(t)])))
+        else:
+            fact(run, QA(cnt, lambda t: arr[t] == src_arr[sel(t)]))
         r = SymList(cnt, arr, base.elem)
         mf = idx.fn
         run.__dict__.setdefault('np_filters', []).append(dict(n=cnt, arr=arr, src=(lambda j: sel(j)), cond=(lambda i: mf(i)), parent=M.snapshot(base),
@@ -1472,8 +1493,8 @@ _prev_np_array = _np_array
 
 def _np_array_objects(it, args, kw):
     v = args[0]
-    if isinstance(v, SymList) and isinstance(v.elem, pm.MsgSchema):
-        return SymList(v.n, v.arr, v.elem)       # object array of messages: only indexing by a boolean mask / list() are modelled
+    if isinstance(v, SymList) and (isinstance(v.elem, pm.MsgSchema) or v.elem == 'pyobj') and not isinstance(v, EnumList):
+        return SymList(v.n, v.arr, v.elem)       # object array of messages / python objects: only indexing by a boolean mask / list() are modelled
     return _prev_np_array(it, args, kw)
 
 
